@@ -12,7 +12,7 @@ var corpusC15 = []string{
 	`a == 1 or any b as x { x == 1 }`, `(any b as x { x == 1 }) and a == 1`, `not == 1`, `in in in`, `any == 1`, `all.x is empty`, `a == "/a~1b/~0"`, `"/a~1b/~0c" == 1`, `a == "/é/١"`, `"/é" == 1`,
 	`((a == 1))`, `(a == 1) and (b == 2)`, `a == 1 and not (b == 2)`, `a == -0`, `a == 0.50`, `a == foo["bar"]`, `a[ "b" ] == 1`, `a == x/y`,
 	`"/a/~01" == 1`, `"/~10" == 1`, `a == "/~01"`, `a == 1 or a == 1`, `a == 1 and a == 1`, `a matches "x" or a matches "y"`, `m["b.c"] == 1 and m.b.c == 1`, `a == 1 or (a == 1 and b == 2)`,
-	`foo["bar"] in baz`, `foo.bar in baz`, `"/x/y" in foo`, `(((((a == 1)))))`, `not ((((not (a in b)))))`,
+	`foo["bar"] in baz`, `foo.bar in baz`, `"/x/y" in foo`, `(((((a == 1)))))`, `not ((((not (a in b)))))`, `(((((((a == 1)))))))`, "a == `x\ry`", "a == \"x\ny\"", "a[`k\r`] == 1", "a == \"x\ry\"",
 	// rejected
 	`(a == 1`, `a == 1x`, `a[1] == 2`, `a["b" == 1`, `a == "x`, "a == `x", `1 in `, `x in 5`, `a == "\q"`, `a ==`, `== 1`, `a = 1`, `any a as _ { x == 1 }`, `a == 01`, `a == 1.`, "a == \"\xff\"", `a is`, `not`, `a == 1 or`, `{`,
 	`any a as x { x == 1} `, `any a as x { x == 1}`, `a == 1and b == 2`, `(a==1)and(b==2)`, `not(a==1)`, `a == 1e5`, `anyxs as x { x == 1 }`, `any a as x { any x as y { y == 1 } } or a == 1`, `a == 1 and any b as x { x == 1 }`, `not any b as x { x == 1 }`,
@@ -32,6 +32,9 @@ func checkAgainstRef(in []byte, what string) bool {
 
 func H_C15_corpus() {
 	s := corpusC15[vChoose(len(corpusC15))]
+	if vTier() == 0 && len(s) > 6 && s[:7] == "(((((((" {
+		return // thorough tier only
+	}
 	if checkAgainstRef([]byte(s), s) {
 		vCover("accepted")
 	} else {
